@@ -27,7 +27,8 @@ def install(E):
 
     def jt(e): return e.P.g.setdefault('jtree', {})
     def attach(e, s, tree, fmt='json'):
-        if s.c is None: jt(e)[s.t.get_id()] = (fmt, tree)
+        if s.c is None:
+            e.P.keep.append(s.t); jt(e)[s.t.get_id()] = (fmt, tree)
         else: jt(e)[('c', s.c)] = (fmt, tree)
     def tree_of(e, s):
         if s.c is not None: return jt(e).get(('c', s.c))
@@ -274,6 +275,7 @@ def install(E):
             mode = e.P.g.get('json_havoc', True)
             bad = e.P.g.setdefault('json_invalid', set())
             key = s.t.get_id() if s.c is None else ('c', s.c)
+            if s.c is None: e.P.keep.append(s.t)
             if not mode or key in bad: return mkerr('invalid character looking for beginning of value')
             if s.c is not None or e.choose(2) == 0:
                 bad.add(key)          # the same text is malformed for every later decoder call as well
